@@ -130,15 +130,19 @@ Proof. exact text_roundtrip_generated. Qed.
 Print Assumptions C01_text_roundtrip.
 
 (** * The query core: SELECT / query skeleton (QueryCore.v, QueryCoreProofs.v).
-    Token-level model of Parser::parse_query / parse_query_body / parse_select / parse_select_item /
-    parse_table_factor / parse_optional_alias / the LIMIT-OFFSET loop and of the Display impls of
-    Query / SetExpr / Select / SelectItem / TableFactor / OrderByExpr, over the expression model above;
-    the dialect records [qd_<dialect>] are regenerated from the running crate (gen/QueryTables.v). *)
+    Token-level model of Parser::parse_query (incl. its WITH branch and parse_cte) / parse_query_body /
+    parse_select / parse_select_item / parse_table_and_joins (the join loop, parse_join_constraint) /
+    parse_table_factor (tables, derived tables, nested joins with the maybe_parse fallback) /
+    parse_optional_alias / parse_parenthesized_column_list / the LIMIT-OFFSET loop and of the Display impls of
+    Query / With / Cte / SetExpr / Select / SelectItem / TableWithJoins / Join / TableFactor / OrderByExpr,
+    over the expression model above; the dialect records [qd_<dialect>] are regenerated from the running
+    crate (gen/QueryTables.v). *)
 Require Import SqlV.SetOps SqlV.QueryCore SqlV.QueryCoreProofs SqlVGen.QueryTables.
 
 (** generated side conditions: unknown level 0, AND below BETWEEN, the clause keywords are reserved
     (FROM WHERE GROUP HAVING UNION EXCEPT INTERSECT ORDER LIMIT OFFSET as column alias, all but FROM
-    as table alias), and RESERVED_FOR_COLUMN_ALIAS lists only keywords other than NOT *)
+    as table alias, and so are the join keywords JOIN INNER LEFT RIGHT FULL CROSS NATURAL ON USING), and
+    RESERVED_FOR_COLUMN_ALIAS lists only keywords other than NOT *)
 Lemma C01_query_tables_ok : forall d, In d QueryTables.all_qdialects -> dialect_ok d = true.
 Proof.
   intros d H. cbn [QueryTables.all_qdialects In] in H.
@@ -150,9 +154,11 @@ Lemma C01_query_tables_base :
   map base QueryTables.all_qdialects = map (fun x => snd (fst (fst x))) PrecTables.all_dialects.
 Proof. reflexivity. Qed.
 
-(** the round trip: for EVERY well-formed query tree of the fragment (not only parser outputs), every
-    dialect, every continuation that ends a query: parsing the printed tokens returns the tree and
-    the continuation, for every fuel from the nesting level up *)
+(** the round trip: for EVERY well-formed query tree of the fragment (not only parser outputs) - WITH
+    [RECURSIVE] and its CTEs with or without column lists, SELECT with joins of every kind and constraint,
+    nested joins, derived tables, set operations, ORDER BY / LIMIT / OFFSET -, every dialect, every
+    continuation that ends a query: parsing the printed tokens returns the tree and the continuation,
+    for every fuel from the nesting level up *)
 Theorem C01_query_roundtrip : forall d q rest fuel,
   In d QueryTables.all_qdialects ->
   qwf d q = true -> qfrag d (qtoks q ++ rest) = true -> ender rest = true -> (qlevel q <= fuel)%nat ->
@@ -172,6 +178,18 @@ Proof.
 Qed.
 Print Assumptions C01_query_body_roundtrip.
 
+(** one element of FROM: a table factor with its joins (parse_table_and_joins); what follows is a comma
+    or the end of the FROM clause *)
+Theorem C01_query_joins_roundtrip : forall d t rest fuel,
+  In d QueryTables.all_qdialects ->
+  twj_wf d t = true -> qfrag d (twj_toks t ++ rest) = true ->
+  (is_comma rest = true \/ (2 <= hrank rest)%nat) -> (S (twjlevel t) <= fuel)%nat ->
+  parse_twj d fuel (twj_toks t ++ rest) = Ok (t, rest).
+Proof.
+  intros d t rest fuel Hin. exact (twj_roundtrip d (C01_query_tables_ok d Hin) t rest fuel).
+Qed.
+Print Assumptions C01_query_joins_roundtrip.
+
 Theorem C01_qtoks_injective : forall d q1 q2,
   In d QueryTables.all_qdialects ->
   qwf d q1 = true -> qwf d q2 = true -> qfrag d (qtoks q1) = true -> qtoks q1 = qtoks q2 -> q1 = q2.
@@ -180,16 +198,18 @@ Proof.
 Qed.
 Print Assumptions C01_qtoks_injective.
 
-(** the three dialect-dependent conjuncts of [qwf] / [qfrag] cannot be dropped: on a dialect record
-    with the switch on, the printed tokens of the tree do not parse back to it (computed witnesses;
-    none of these trees is an output of the parser in such a dialect) *)
+(** the conjuncts of [qwf] / [qfrag] that restrict the trees cannot be dropped: the printed tokens of
+    the tree do not parse back to it (computed witnesses on a dialect record with the switch in
+    question; none of these trees is an output of the parser in such a dialect) *)
 Definition qd_switch (tr un we : bool) : qdialect :=
   {| base := d_generic; res_col := res_col_all; res_tab := res_tab_all; limit_comma := false;
      limit_by := false; trailing := tr; proj_trailing := false; wild_except := we; wild_ilike := false;
      select_as := false; unnest_table := un; hyphen_table := false; group_by_expr := false;
-     paren_tables := false |}.
+     paren_tables := false; group_with := false |}.
 Definition qx n := QE (TAtom false n).
-Definition q_sel items from : query := Query (BSelect false items from None [] None) [] None None.
+Definition q_sel items from : query := Query None (BSelect false items from None [] None) [] None None.
+Definition tw n : twj := Twj (TTable n None) [].
+Definition q1 : query := q_sel [IExpr (EAtom false 1)] [].
 
 (** trailing commas: a table after the first one named by a reserved word *)
 Example C01_query_trailing_name_refuted :
@@ -197,7 +217,27 @@ Example C01_query_trailing_name_refuted :
     parse_query d (qlevel q) (qtoks q ++ []) <> Ok (q, []).
 Proof.
   exists (qd_switch true false false),
-         (q_sel [IExpr (EAtom false 1)] [TTable (qx 2) None; TTable (QK KSelect) None]).
+         (q_sel [IExpr (EAtom false 1)] [tw (qx 2); tw (QK KSelect)]).
+  vm_compute. repeat split; try reflexivity. discriminate.
+Qed.
+(** ... a later column of USING (..) named by a reserved word *)
+Example C01_query_trailing_column_refuted :
+  exists d q, dialect_ok d = true /\ qfrag d (qtoks q) = true /\
+    parse_query d (qlevel q) (qtoks q ++ []) <> Ok (q, []).
+Proof.
+  exists (qd_switch true false false),
+         (q_sel [IExpr (EAtom false 1)]
+            [Twj (TTable (qx 2) None) [Join (JOp JInner (JUsing [qx 4; QK KWhere])) (TTable (qx 3) None)]]).
+  vm_compute. repeat split; try reflexivity. discriminate.
+Qed.
+(** ... a later CTE named by a reserved word *)
+Example C01_query_trailing_cte_refuted :
+  exists d q, dialect_ok d = true /\ qfrag d (qtoks q) = true /\
+    parse_query d (qlevel q) (qtoks q ++ []) <> Ok (q, []).
+Proof.
+  exists (qd_switch true false false),
+         (Query (Some (With false [Cte (qx 2) [] q1; Cte (QK KSelect) [] q1]))
+            (BSelect false [IExpr (EAtom false 1)] [] None [] None) [] None None).
   vm_compute. repeat split; try reflexivity. discriminate.
 Qed.
 (** FROM UNNEST where UNNEST(..) is a table factor *)
@@ -205,7 +245,7 @@ Example C01_query_unnest_name_refuted :
   exists d q, dialect_ok d = true /\ qfrag d (qtoks q) = true /\
     parse_query d (qlevel q) (qtoks q ++ []) <> Ok (q, []).
 Proof.
-  exists (qd_switch false true false), (q_sel [IExpr (EAtom false 1)] [TTable (QE (TKw KUnnest)) None]).
+  exists (qd_switch false true false), (q_sel [IExpr (EAtom false 1)] [tw (QE (TKw KUnnest))]).
   vm_compute. repeat split; try reflexivity. discriminate.
 Qed.
 (** [SELECT * EXCEPT SELECT ..] where [* EXCEPT (..)] is a wildcard option *)
@@ -214,7 +254,45 @@ Example C01_query_star_except_refuted :
     parse_query d (qlevel q) (qtoks q ++ []) <> Ok (q, []).
 Proof.
   exists (qd_switch false false true),
-         (Query (BSetOp Except QNone (BSelect false [IWild] [] None [] None)
+         (Query None (BSetOp Except QNone (BSelect false [IWild] [] None [] None)
                    (BSelect false [IExpr (EAtom false 1)] [] None [] None)) [] None None).
+  vm_compute. repeat split; try reflexivity. discriminate.
+Qed.
+(** WITH without RECURSIVE whose first CTE is named RECURSIVE: the text reads as WITH RECURSIVE *)
+Example C01_query_recursive_name_refuted :
+  exists d q, dialect_ok d = true /\ qfrag d (qtoks q) = true /\
+    parse_query d (qlevel q) (qtoks q ++ []) <> Ok (q, []).
+Proof.
+  exists (qd_switch false false false),
+         (Query (Some (With false [Cte (QK KRecursive) [] q1]))
+            (BSelect false [IExpr (EAtom false 1)] [] None [] None) [] None None).
+  vm_compute. repeat split; try reflexivity. discriminate.
+Qed.
+(** a parenthesised join whose first table is named SELECT: [(SELECT JOIN x2)] is read as a query *)
+Example C01_query_nested_starter_refuted :
+  exists d q, dialect_ok d = true /\ qfrag d (qtoks q) = true /\
+    parse_query d (qlevel q) (qtoks q ++ []) <> Ok (q, []).
+Proof.
+  exists (qd_switch false false false),
+         (q_sel [IExpr (EAtom false 1)]
+            [Twj (TNested (Twj (TTable (QK KSelect) None) [Join (JOp JInner JNone) (TTable (qx 2) None)]) None) []]).
+  vm_compute. repeat split; try reflexivity. discriminate.
+Qed.
+(** parentheses around a single table are not a nested join; USING needs a column *)
+Example C01_query_nested_shape_refuted :
+  exists d q, dialect_ok d = true /\ qfrag d (qtoks q) = true /\
+    parse_query d (qlevel q) (qtoks q ++ []) <> Ok (q, []).
+Proof.
+  exists (qd_switch false false false),
+         (q_sel [IExpr (EAtom false 1)] [Twj (TNested (tw (qx 2)) None) []]).
+  vm_compute. repeat split; try reflexivity. discriminate.
+Qed.
+Example C01_query_using_empty_refuted :
+  exists d q, dialect_ok d = true /\ qfrag d (qtoks q) = true /\
+    parse_query d (qlevel q) (qtoks q ++ []) <> Ok (q, []).
+Proof.
+  exists (qd_switch false false false),
+         (q_sel [IExpr (EAtom false 1)]
+            [Twj (TTable (qx 2) None) [Join (JOp JLeft (JUsing [])) (TTable (qx 3) None)]]).
   vm_compute. repeat split; try reflexivity. discriminate.
 Qed.
